@@ -42,6 +42,11 @@ func payloads() []payload {
 		{"LOAD_FILE", "oob", false, call("LOAD_FILE", sqlgen.Str("/etc/passwd")), security.PatternOutOfBand, security.SeverityCritical},
 		{"xp_cmdshell", "oob", false, call("xp_cmdshell", sqlgen.Str("dir")), security.PatternOutOfBand, security.SeverityCritical},
 		{"sp_executesql", "oob", false, call("sp_executesql", sqlgen.Str("q")), security.PatternOutOfBand, security.SeverityCritical},
+		// other spellings of the documented names
+		{"sleep", "time", false, call("sleep", sqlgen.Int("5")), security.PatternTimeBased, security.SeverityHigh},
+		{"Pg_Sleep", "time", false, call("Pg_Sleep", sqlgen.Int("5")), security.PatternTimeBased, security.SeverityHigh},
+		{"load_file", "oob", false, call("load_file", sqlgen.Str("/etc/passwd")), security.PatternOutOfBand, security.SeverityCritical},
+		{"XP_CmdShell", "oob", false, call("XP_CmdShell", sqlgen.Str("dir")), security.PatternOutOfBand, security.SeverityCritical},
 		// payloads nested in one another's arguments: findings of different severities from one expression
 		{"BENCHMARK(LOAD_FILE)", "oob", false, call("BENCHMARK", sqlgen.Int("1000000"), sqlgen.Func("LOAD_FILE", []sqlgen.X{sqlgen.Str("/etc/passwd")}, sqlgen.FuncOpts{})), security.PatternOutOfBand, security.SeverityCritical},
 		{"SLEEP((xp_cmdshell))", "oob", false, call("SLEEP", sqlgen.Extra(sqlgen.Func("xp_cmdshell", []sqlgen.X{sqlgen.Str("dir")}, sqlgen.FuncOpts{}), 1)), security.PatternOutOfBand, security.SeverityCritical},
@@ -202,13 +207,183 @@ func counts(r *security.ScanResult) string {
 
 var allAPIs = apis()
 
+// enumerateUnion covers the statement-level payloads: UNION probing with NULL columns and with system tables.
+// The canonical position is the right operand of a top-level 'SELECT c1 FROM t1 UNION <probe>'; the other positions
+// put the same set operation wherever a query can stand.  Letter case of the table name, of NULL and of the keywords,
+// the ALL modifier and the layouts must not matter.
+func enumerateUnion(e *common.Enum) {
+	type probe struct {
+		name, class string
+		right       func(spell func(string) string) sqlgen.S
+		sev         security.Severity
+	}
+	sel := func(items []sqlgen.X, schema, table string) sqlgen.S {
+		var its []sqlgen.SelItem
+		for _, x := range items {
+			its = append(its, sqlgen.SelItem{X: x})
+		}
+		return sqlgen.Sel{Items: its, From: []sqlgen.TableRef{{Schema: schema, Name: table}}}.Build()
+	}
+	var probes []probe
+	for _, n := range []int{2, 3, 5} {
+		n := n
+		probes = append(probes, probe{fmt.Sprintf("null-x%d", n), "null", func(spell func(string) string) sqlgen.S {
+			var xs []sqlgen.X
+			for i := 0; i < n; i++ {
+				xs = append(xs, sqlgen.Null())
+			}
+			return sel(xs, "", "t2")
+		}, security.SeverityHigh})
+	}
+	for _, st := range [][2]string{{"information_schema", "columns"}, {"information_schema", "schemata"}, {"pg_catalog", "pg_class"}, {"", "pg_shadow"}, {"sys", "objects"},
+		{"mysql", "user"}, {"", "sqlite_master"}, {"msdb", "backupset"}, {"tempdb", "sysobjects"}} {
+		st := st
+		probes = append(probes, probe{"systable:" + strings.Trim(st[0]+"."+st[1], "."), "systable", func(spell func(string) string) sqlgen.S {
+			return sel([]sqlgen.X{sqlgen.Col("c2")}, spell(st[0]), spell(st[1]))
+		}, security.SeverityCritical})
+	}
+	spellings := []struct {
+		name string
+		f    func(string) string
+	}{
+		{"lower", strings.ToLower}, {"upper", strings.ToUpper},
+		{"mixed", func(s string) string {
+			b := []byte(strings.ToLower(s))
+			for i := 0; i < len(b); i += 2 {
+				if b[i] >= 'a' && b[i] <= 'z' {
+					b[i] -= 32
+				}
+			}
+			return string(b)
+		}},
+	}
+	left := sqlgen.Sel{Items: []sqlgen.SelItem{{X: sqlgen.Col("c1")}}, From: []sqlgen.TableRef{{Name: "t1"}}}.Build()
+	xp := func(v sqlgen.X) *sqlgen.X { return &v }
+	hosts := []struct {
+		name string
+		f    func(u sqlgen.S) sqlgen.S
+	}{
+		{"top", func(u sqlgen.S) sqlgen.S { return u }},
+		{"chain-last", nil}, // built below: L UNION M UNION probe
+		{"in-subquery", func(u sqlgen.S) sqlgen.S {
+			return sqlgen.Sel{Items: []sqlgen.SelItem{{X: sqlgen.Col("c0")}}, From: []sqlgen.TableRef{{Name: "t0"}}, Where: xp(sqlgen.InSub(sqlgen.Col("c0"), false, u))}.Build()
+		}},
+		{"exists", func(u sqlgen.S) sqlgen.S {
+			return sqlgen.Sel{Items: []sqlgen.SelItem{{X: sqlgen.Col("c0")}}, From: []sqlgen.TableRef{{Name: "t0"}}, Where: xp(sqlgen.Exists(false, u))}.Build()
+		}},
+		{"cte-body", func(u sqlgen.S) sqlgen.S {
+			return sqlgen.Sel{With: &sqlgen.With{CTEs: []sqlgen.CTE{{Name: "w1", Body: u}}}, Items: []sqlgen.SelItem{{X: sqlgen.Star()}}, From: []sqlgen.TableRef{{Name: "w1"}}}.Build()
+		}},
+		{"insert-select", func(u sqlgen.S) sqlgen.S { return sqlgen.Ins{Table: "t0", Cols: []string{"c1"}, Query: &u}.Build() }},
+		{"create-view", func(u sqlgen.S) sqlgen.S { return sqlgen.CreateView{Name: "v1", Query: u}.Build() }},
+		{"script-second", func(u sqlgen.S) sqlgen.S {
+			toks := append(append(append([]sqlgen.Tok{}, left.Toks...), sqlgen.Tok{S: ";"}), u.Toks...)
+			return sqlgen.S{Toks: toks, Kind: "script"}
+		}},
+	}
+	for _, pr := range probes {
+		for _, all := range []bool{false, true} {
+			for _, h := range hosts {
+				pr, all, h := pr, all, h
+				ckey := fmt.Sprintf("union|%s|all=%v|%s", pr.name, all, h.name)
+				e.Do(ckey, func(c *common.Ctx) {
+					build := func(spell func(string) string) sqlgen.S {
+						u := sqlgen.SetOp(left, "UNION", all, pr.right(spell))
+						if h.name == "chain-last" {
+							mid := sqlgen.Sel{Items: []sqlgen.SelItem{{X: sqlgen.Col("c3")}}, From: []sqlgen.TableRef{{Name: "t3"}}}.Build()
+							return sqlgen.SetOp(sqlgen.SetOp(left, "UNION", false, mid), "UNION", all, pr.right(spell))
+						}
+						return h.f(u)
+					}
+					canonSQL := sqlgen.SetOp(left, "UNION", false, pr.right(strings.ToLower)).SQL()
+					c.Input(build(strings.ToLower).SQL())
+					ok := true
+					for _, a := range apis() {
+						cks, _, cerr, cpan := safeScan(a, canonSQL, security.SeverityLow)
+						if cpan != "" || cerr != nil {
+							continue // C01's / C03's business
+						}
+						cm := multiset(cks)
+						if a.name == "tree" {
+							if cm[key{string(security.PatternUnionBased), string(pr.sev)}] == 0 {
+								ok = false
+								c.Fail("canonical-missing:tree:union:"+pr.class, fmt.Sprintf("the documented UNION probe is not reported as %s/%s in the canonical position: %s gives %s", security.PatternUnionBased, pr.sev, canonSQL, show(cm)))
+							} else {
+								c.NonTrivial()
+							}
+						}
+						var base map[key]int
+						for _, sp := range spellings {
+							st := build(sp.f)
+							for l := 0; l < 3; l++ {
+								sql := sqlgen.Render(st.Toks, l)
+								ks, res, err, pan := safeScan(a, sql, security.SeverityLow)
+								if pan != "" || err != nil {
+									continue
+								}
+								m := multiset(ks)
+								if sp.name == "lower" && l == 0 {
+									base = m
+									if !superset(m, cm) {
+										ok = false
+										c.Fail("not-closed:"+a.name+":union:"+pr.class+"@union-host:"+h.name, fmt.Sprintf("UNION probe reported as %s in the canonical position but only %s here:\n %s", show(cm), show(m), sql))
+									}
+									for _, min := range thresholds[1:] {
+										tks, _, terr, _ := safeScan(a, sql, min)
+										if terr != nil {
+											continue
+										}
+										want := map[key]int{}
+										for k, n := range m {
+											if sevRank[k.sev] >= sevRank[string(min)] {
+												want[k] = n
+											}
+										}
+										if !equal(multiset(tks), want) {
+											ok = false
+											c.Fail("threshold:"+a.name+":"+string(min), fmt.Sprintf("threshold %s gives %s, the LOW-threshold findings of that severity or above are %s\n %s", min, show(multiset(tks)), show(want), sql))
+										}
+									}
+									if res != nil {
+										if msg := counts(res); msg != "" {
+											ok = false
+											c.Fail("counts:"+a.name, msg)
+										}
+									}
+								} else if base != nil && !equal(m, base) {
+									ok = false
+									what := "layout-variance"
+									if sp.name != "lower" {
+										what = "case-variance"
+									}
+									feat := fmt.Sprintf("layout:%d", l)
+									if sp.name != "lower" {
+										feat = "spelling:" + sp.name
+									}
+									c.Fail(what+":"+a.name+":union:"+pr.class+"@"+feat, fmt.Sprintf("spelling %s / layout %d gives %s, the lower-case natural text %s:\n %s", sp.name, l, show(m), show(base), sql))
+								}
+							}
+						}
+					}
+					if ok {
+						c.Outcome("ok:union:" + pr.class)
+					} else {
+						c.Outcome("fails:union:" + pr.class)
+					}
+				})
+			}
+		}
+	}
+}
+
 // Check returns the C16 check.
 func Check() *common.Check {
 	return &common.Check{
 		ID:    "C16",
 		Level: "exploration",
-		Rule: "14 payloads built from the documented ones (4 tautologies, 3 time-delay calls, 3 dangerous calls, 4 nestings of one call inside the arguments of another) x every expression hole of the model grammar (condition payloads only in the 17 condition holes, each also as operand of AND / OR / NOT and inside redundant parentheses; call payloads in all 49 holes) " +
+		Rule: "18 payloads built from the documented ones (4 tautologies, 3 time-delay calls, 3 dangerous calls, 4 other spellings of those names, 4 nestings of one call inside the arguments of another) x every expression hole of the model grammar (condition payloads only in the 17 condition holes, each also as operand of AND / OR / NOT and inside redundant parentheses; call payloads in all 49 holes) " +
 			"x 3 layouts (natural, one space everywhere, one lexeme per line with lower-case keywords and CRLF) x 4 severity thresholds x 3 scanner APIs (tree Scan, ScanSQL, the CLI text scanner); thorough adds every payload inside a second level of nesting (hole in hole). " +
+			"UNION probes (2/3/5 NULL columns; 9 system tables) x UNION / UNION ALL x 8 hosts (top level, end of a chain, IN / EXISTS sub-query, CTE body, INSERT..SELECT, CREATE VIEW, second statement) x 3 spellings of the names (lower, upper, mixed) x 3 layouts x 4 thresholds x 3 APIs. " +
 			"Per API the canonical answer is that API's answer for 'SELECT c0 FROM t0 WHERE <payload>'. distinct = distinct (payload, position, wrapper); non-trivial = the tree API reports the payload in the canonical position",
 		Assume: []string{"closure and layout invariance are judged per API against that API's own canonical answer; the documented (class, severity) is demanded from the tree API only (ScanSQL documents no tautology detection)",
 			"a position whose statement the parser rejects is skipped for the tree API (C03's business)"},
@@ -284,6 +459,7 @@ func Check() *common.Check {
 					}})
 				}
 			}
+			enumerateUnion(e)
 			canonical := func(p payload) sqlgen.S {
 				return sqlgen.Sel{Items: []sqlgen.SelItem{{X: sqlgen.Col("c0")}}, From: []sqlgen.TableRef{{Name: "t0"}}, Where: func() *sqlgen.X { v := p.x(); return &v }()}.Build()
 			}
